@@ -71,9 +71,19 @@ def run_case(case, rec, cid):
         else:
             date = ("%04d%02d%02d" if c["basic"] else "%04d-%02d-%02d") % (c["y"], c["mo"], c["d"])
             desg = "P%dY%dM%dD" % (c["y"], c["mo"], c["d"])
-        tm = ("%02d%02d%02d" if c["basic"] else "%02d:%02d:%02d") % (c["h"], c["mi"], c["s"])
+        dec = c.get("dec")          # decimal digits on the last time unit present ("hms" | "hm" | "h")
+        form = c.get("tform", "hms")
+        dtxt = ("," + dec) if dec else ""
+        if form == "hms":
+            tm = ("%02d%02d%02d" if c["basic"] else "%02d:%02d:%02d") % (c["h"], c["mi"], c["s"]) + dtxt
+            desg += "T%dH%dM%d%sS" % (c["h"], c["mi"], c["s"], dtxt)
+        elif form == "hm":
+            tm = ("%02d%02d" if c["basic"] else "%02d:%02d") % (c["h"], c["mi"]) + dtxt
+            desg += "T%dH%d%sM" % (c["h"], c["mi"], dtxt)
+        else:
+            tm = "%02d" % c["h"] + dtxt
+            desg += "T%d%sH" % (c["h"], dtxt)
         alt = "P" + date + "T" + tm
-        desg += "T%dH%dM%dS" % (c["h"], c["mi"], c["s"])
 
         def h():
             qa, qd = _DP.parse(alt), _DP.parse(desg)
@@ -124,7 +134,8 @@ def expand(job):
             ordinal = rnd.random() < 0.3
             yield {"kind": "alt", "y": rnd.choice([0, 1, 4, 10, 1999, rnd.randint(0, 9999)]), "mo": rnd.randint(0, 12) if not ordinal else 0,
                    "d": rnd.randint(0, 31) if not ordinal else rnd.randint(0, 366), "h": rnd.randint(0, 23), "mi": rnd.randint(0, 59),
-                   "s": rnd.randint(0, 59), "basic": rnd.random() < 0.5, "ord": ordinal}
+                   "s": rnd.randint(0, 59), "basic": rnd.random() < 0.5, "ord": ordinal, "tform": rnd.choice(["hms", "hms", "hm", "h"]),
+                   "dec": rnd.choice([None, None, "5", "25", "125", "75"])}
 
 
 def jobs(tier, seed):
